@@ -200,6 +200,7 @@ def finish(prop, tier, seed, mod, results, t0, tree_hash, no_replay=False, extra
             mismatches.append(dict(error=str(e)[:1500]))
     # dedupe by structural signature
     by_sig = collections.OrderedDict()
+    violations.sort(key=lambda v: 0 if v.get('preferred') else 1)
     for v in violations + (panics if getattr(mod, 'PANICS_ARE_VIOLATIONS', True) else []) + list((extra or {}).get('violations', [])):
         by_sig.setdefault(v['signature'], v)
     known = load_known(prop)
